@@ -2,7 +2,8 @@
 
 Space: measurement types {Images, DiffractionPatterns, PolarMeasurements, RealSpaceLineProfiles} x ensemble shapes {(), (4,), (2,3)}
 with IDENTICAL members x EVERY composition-rechunking of the ensemble axes (lazy) x dose in {1e2, 1e5} x samples in {1, 3} x
-seeds in {0, 1, 7} x lazy/eager.
+seeds in {0, 1, 7} x lazy/eager; dose also as a 2-value distribution; the transform's own axes (dose, samples) split by 'auto' chunking
+under dask.chunk-size in {400B, 200B}; the same measurement object asked twice (history of length 2) with an input snapshot.
 Oracle (deterministic for fixed seeds): counts are >= 0 and integral; the same seed gives the identical result on repetition;
 lazy == eager for every chunking; two ensemble members with the same signal (and two samples) never receive the identical
 noise array (probability of a false alarm < 1e-100 at these doses); |mean - dose*signal| <= 6 sigma / sqrt(N) for every
@@ -29,7 +30,7 @@ SHAPES = [[], [4], [2, 3]]
 
 def check(ctx):
     cases = []
-    for t, sh, dose, samples, seed in itertools.product(TYPES, SHAPES, (1e2, 1e5), (1, 3), (0, 1, 7)):
+    for t, sh, dose, samples, seed in itertools.product(TYPES, SHAPES, (1e2, 1e5, [1e2, 1e5]), (1, 3), (0, 1, 7)):
         if ctx.quick and (t not in ("Images", "DiffractionPatterns") and (seed != 1 or samples == 3)):
             continue
         cases.append({"type": t, "shape": sh, "dose": dose, "samples": samples, "seed": seed})
@@ -60,9 +61,17 @@ def make(c, chunks=None):
     return o, member
 
 
-def noisy(c, chunks=None):
+def noisy(c, chunks=None, chunk_size=None, info=None):
+    import abtem
+
     o, member = make(c, chunks)
-    out = o.poisson_noise(total_dose=c["dose"], samples=c["samples"], seed=c["seed"])
+    if chunk_size is None:
+        out = o.poisson_noise(total_dose=c["dose"], samples=c["samples"], seed=c["seed"])
+    else:  # the user setting that decides how 'auto' splits the transform's own axes (dose, samples)
+        with abtem.config.set({"dask.chunk-size": chunk_size}):
+            out = o.poisson_noise(total_dose=c["dose"], samples=c["samples"], seed=c["seed"])
+    if info is not None and getattr(out, "is_lazy", False):
+        info["chunks"] = out.array.chunks
     out = out.compute() if getattr(out, "is_lazy", False) else out
     return np.asarray(out.array), member
 
@@ -79,7 +88,10 @@ def run_case(c):
     tr += 1
     if (eager < 0).any() or not np.array_equal(eager, np.round(eager)):
         bad("counts/not-nonnegative-integers", "noisy counts are not non-negative whole numbers")
-    want_shape = ((c["samples"],) if c["samples"] > 1 else ()) + sh + member.shape
+    dose_dist = isinstance(c["dose"], list)
+    doses = np.array(c["dose"] if dose_dist else [c["dose"]], dtype=np.float64)
+    lead = ((len(doses),) if dose_dist else ()) + ((c["samples"],) if c["samples"] > 1 else ())
+    want_shape = lead + sh + member.shape
     if eager.shape != want_shape:
         bad("shape", "noisy shape %r, expected %r" % (eager.shape, want_shape))
         return {"viol": viol}
@@ -88,17 +100,31 @@ def run_case(c):
     if not np.array_equal(eager, again):
         bad("reproducible/eager", "the same seed gave a different eager result")
     # expectation, per enumerated seed (6 sigma)
-    lam = c["dose"] * member.astype(np.float64)
-    flat = eager.reshape((-1,) + member.shape).astype(np.float64)
-    n = flat.shape[0]
-    z = (flat.mean(axis=0) - lam) / np.sqrt(lam / n)
-    zmax = float(np.abs(z).max())
+    zmax = 0.0
+    per_dose = eager.reshape((len(doses), -1) + member.shape).astype(np.float64)
+    for d, flat in zip(doses, per_dose):
+        lam = d * member.astype(np.float64)
+        n = flat.shape[0]
+        z = (flat.mean(axis=0) - lam) / np.sqrt(lam / n)
+        zmax = max(zmax, float(np.abs(z).max()))
     if zmax > 6.0:
         bad("expectation", "mean of %d members deviates from dose*signal by %.1f sigma" % (n, zmax))
+    # history: the SAME measurement object is asked twice; the second answer must equal the first and the input must be untouched
+    o, _ = make(c)
+    before = np.array(o.array, copy=True)
+    first = np.asarray(o.poisson_noise(total_dose=c["dose"], samples=c["samples"], seed=c["seed"]).array)
+    second = np.asarray(o.poisson_noise(total_dose=c["dose"], samples=c["samples"], seed=c["seed"]).array)
+    tr += 2
+    if not np.array_equal(np.asarray(o.array), before):
+        bad("history/input-modified", "poisson_noise changed the measurement it was applied to (max change %.3g)" % float(np.abs(np.asarray(o.array) - before).max()))
+    if not np.array_equal(first, eager) or not np.array_equal(second, first):
+        bad("history/second-call-differs", "the second poisson_noise call on the same object with the same seed differs from the first (mean ratio %.3g)" % float(second.mean() / max(first.mean(), 1e-30)))
     # independence: identical-signal members / samples must not carry identical noise
     def identical_pairs(a):
-        m = a.reshape((-1,) + member.shape)
-        return [(i, j) for i in range(len(m)) for j in range(i + 1, len(m)) if np.array_equal(m[i], m[j])]
+        out = []
+        for m in a.reshape((len(doses), -1) + member.shape):  # members of different dose are trivially different
+            out += [(i, j) for i in range(len(m)) for j in range(i + 1, len(m)) if np.array_equal(m[i], m[j])]
+        return out
 
     ip = identical_pairs(eager)
     if ip:
@@ -126,4 +152,27 @@ def run_case(c):
         tr += 1
         if not np.array_equal(lz, eager):
             bad("lazy-vs-eager/single-block", "lazy result of a single measurement differs from the eager one")
+    # 'auto' chunking of the transform's own axes (dose, samples) under a small dask.chunk-size; the input stays ONE block so that
+    # a disagreement is attributable to the split of exactly those axes
+    nlead = len(lead)
+    if nlead:
+        for cs in ("400B", "200B"):
+            info = {}
+            try:
+                lz, _ = noisy(c, tuple((m,) for m in sh), chunk_size=cs, info=info)
+            except Exception as e:  # noqa: BLE001
+                bad("lazy/transform-axes-split/raises/" + type(e).__name__, "dask.chunk-size=%s: lazy poisson_noise raised %s: %s" % (cs, type(e).__name__, str(e)[:120]))
+                continue
+            tr += 1
+            ch = info.get("chunks", ())
+            names = (["dose"] if dose_dist else []) + (["sample"] if c["samples"] > 1 else [])
+            split = [nm for nm, cc in zip(names, ch[:nlead]) if len(cc) > 1]
+            if any(len(cc) > 1 for cc in ch[nlead:nlead + len(sh)]):
+                split.append("input")
+            if (lz < 0).any() or not np.array_equal(lz, np.round(lz)):
+                bad("counts/not-nonnegative-integers", "lazy noisy counts are not non-negative whole numbers")
+            if lz.shape != eager.shape or not np.array_equal(lz, eager):
+                bad("lazy-vs-eager/%s-axis-split" % "+".join(split or ["none"]), "dask.chunk-size=%s (chunks %r): lazy result differs from the eager one" % (cs, ch))
+            if identical_pairs(lz):
+                bad("independence/identical-noise/%s-axis-split" % "+".join(split or ["none"]), "dask.chunk-size=%s (chunks %r): members %r have bit-identical noise" % (cs, ch, identical_pairs(lz)[:3]))
     return {"viol": viol, "obs": "z=%.1f" % zmax, "nt": bool(sh) or c["samples"] > 1, "tr": tr, "ref": tr, "err": zmax / 6.0}
